@@ -535,6 +535,10 @@ func addDecimalText(oldText, deltaText string) (text string, value float64, ok b
 	if text == "-0" {
 		text = "0"
 	}
+	// the number reported is the number stored (not the sum rounded a second time)
+	if v, err := strconv.ParseFloat(text, 64); err == nil {
+		value = v
+	}
 	return text, value, true
 }
 
